@@ -44,8 +44,10 @@ CLAIMED = {
     "C15": ("proof", "contract-based deductive verification: two instances built by the real constructors with distinct fresh symbols for every random draw; after the real load_state_dict the result terms of forward / inverse / log_prob (and of a continued training-mode forward) must be identical, for all draws, parameter values and inputs",
             "all random draws and values for 18 class configurations and three histories before saving", "4-C15"),
 }
+CLAIMED["C16"] = ("other", "contract-based deductive verification of gradient CONNECTIVITY only: ghost gradset through every op model; every leaf a result's value depends on is reachable through differentiable ops; correctness of autograd's numbers is assumed, not decided",
+                  "partial: connectivity for the elementwise transform classes in both directions; the finite-difference clause is not decided by this family", "5")
 NA_REASONS = {
-    "C16": ("not claimed: 'gradients equal the true derivatives (finite differences)' is a statement about torch.autograd, which is external code assumed correct by this family; "
+    "C16_unused": ("not claimed: 'gradients equal the true derivatives (finite differences)' is a statement about torch.autograd, which is external code assumed correct by this family; "
             "the only contract-decidable part (every result is graph-connected to every parameter its value depends on) was not built in the time available (DESIGN.md 4-C16)"),
 }
 REASON_TODO = "check not built yet in this session (the design in DESIGN.md section 4 applies; will be claimed when its contracts discharge)"
